@@ -619,30 +619,6 @@ Definition is_unsup (s : status) : bool := match s with Unsup => true | _ => fal
    definition root AFTER the run *)
 Definition obs := (option string * list snapshot * snapshot * list tree)%type.
 
-Fixpoint model_obs (dh : heap) (roots : list cell) (rs : list runspec) : list (result * list tree) :=
-  match rs with
-  | [] => []
-  | r :: rest =>
-    let '(dh1, out) := run1 dh r in
-    (out, map (resolve FUEL dh1 []) roots) :: model_obs dh1 roots rest
-  end.
-
-Definition obs_matches (m : result * list tree) (o : obs) : bool :=
-  let '(out, tr, fin, defs) := o in
-  status_matches (o_status (fst m)) out && list_eqb snap_eqb (o_trace (fst m)) tr
-  && snap_eqb (o_final (fst m)) fin && list_eqb tree_eqb (snd m) defs.
-
-(* 0 agree / 1 disagree / 2 outside the model *)
-Definition c12_check (defs : list tree) (mk : (nat -> cell) -> list runspec) (observed : list obs) : nat :=
-  let '(dh, roots) := load defs [] in
-  let ms := model_obs dh roots (mk (fun n => nth n roots (CInt 0))) in
-  if existsb (fun m => is_unsup (o_status (fst m))) ms then 2%nat
-  else if list_eqb (fun m o => obs_matches m o) ms observed then 0%nat else 1%nat.
-
-Definition c12_show (defs : list tree) (mk : (nat -> cell) -> list runspec) :=
-  let '(dh, roots) := load defs [] in
-  model_obs dh roots (mk (fun n => nth n roots (CInt 0))).
-
 (* ---------------------------------------------------------------- the discipline: a
    syntactic (decidable) check of an op list.  [T] = keys that MAY be bound to a definition
    object (bound by InjectIn, or by a by-reference copy of such a key).  A run is
@@ -761,36 +737,85 @@ Fixpoint build_sched (steps : nat -> list (list op)) (s : list nat) : list (nat 
 
 Definition thread := (list (string * tree) * list (list op))%type.
 
-Fixpoint threads_obs (dh : heap) (roots : list cell) (ths : list thread) (scheds : list (list nat))
-  : list (heap * (result * list tree) * (result * list tree)) :=
-  match scheds with
-  | [] => []
-  | s :: rest =>
-    let ps := fun t => init_ctx (fst (nth t ths ([], []))) empty_priv in
-    let '(dh2, ps2) := sched_run step dh ps (build_sched (fun t => snd (nth t ths ([], []))) s) in
-    let defs := map (resolve FUEL dh2 []) roots in
-    (dh2, (result_of dh2 (ps2 0%nat), defs), (result_of dh2 (ps2 1%nat), defs)) :: threads_obs dh2 roots ths rest
+(* ---------------------------------------------------------------- the repair evaluated:
+   Step.set_step_input_context / configvars doing context.update(copy.deepcopy(...)).
+   [step_fixed] differs from [step] in InjectIn only. *)
+Definition step_fixed (dh : heap) (p : priv) (o : op) : heap * priv :=
+  match o with
+  | InjectIn k c =>
+    if negb (running p) then (dh, p) else
+    match copy FUEL dh (ph p) [] c with
+    | Some (h, _, c') => (dh, set_ctx (aset k c' (ctx p)) (set_ph h p))
+    | None => (dh, unsup p)
+    end
+  | _ => step dh p o
   end.
 
-Definition c12_threads_show (defs : list tree) (mk : (nat -> cell) -> list thread) (scheds : list (list nat)) :=
-  let '(dh, roots) := load defs [] in
-  let ths := mk (fun n => nth n roots (CInt 0)) in
-  let specs := map (fun th : thread => mkrun (fst th) (List.concat (snd th))) ths in
-  let dh1 := fst (history dh specs) in
-  (model_obs dh roots specs, map (fun x => (snd (fst x), snd x)) (threads_obs dh1 roots ths scheds)).
+(* ---------------------------------------------------------------- correspondence, for the
+   machine as the code is ([step]) or as it would be after the repair ([step_fixed]) *)
+Section Corr.
+  Context (stp : heap -> priv -> op -> heap * priv).
 
-Definition c12_threads_check (defs : list tree) (mk : (nat -> cell) -> list thread) (scheds : list (list nat))
-  (solo : list obs) (thr : list (obs * obs)) : nat :=
-  let '(dh, roots) := load defs [] in
-  let ths := mk (fun n => nth n roots (CInt 0)) in
-  let specs := map (fun th : thread => mkrun (fst th) (List.concat (snd th))) ths in
-  let ms := model_obs dh roots specs in
-  let dh1 := fst (history dh specs) in
-  let ts := threads_obs dh1 roots ths scheds in
-  if existsb (fun m => is_unsup (o_status (fst m))) ms
-     || existsb (fun x => negb (closed (fst (fst x))) || is_unsup (o_status (fst (snd (fst x))))
-                          || is_unsup (o_status (fst (snd x)))) ts
-  then 2%nat
-  else if list_eqb (fun m o => obs_matches m o) ms solo
-          && list_eqb (fun x (o : obs * obs) => obs_matches (snd (fst x)) (fst o) && obs_matches (snd x) (snd o)) ts thr
-  then 0%nat else 1%nat.
+  Definition run1_with (dh : heap) (r : runspec) : heap * result :=
+    let '(dh1, p1) := exec stp dh (start r) (r_ops r) in
+    (finish dh1 (ph p1), result_of dh1 p1).
+
+  Fixpoint model_obs (dh : heap) (roots : list cell) (rs : list runspec)
+    : heap * list (result * list tree) :=
+    match rs with
+    | [] => (dh, [])
+    | r :: rest =>
+      let '(dh1, out) := run1_with dh r in
+      let '(dh2, outs) := model_obs dh1 roots rest in
+      (dh2, (out, map (resolve FUEL dh1 []) roots) :: outs)
+    end.
+
+  Definition obs_matches (m : result * list tree) (o : obs) : bool :=
+    let '(out, tr, fin, defs) := o in
+    status_matches (o_status (fst m)) out && list_eqb snap_eqb (o_trace (fst m)) tr
+    && snap_eqb (o_final (fst m)) fin && list_eqb tree_eqb (snd m) defs.
+
+  (* 0 agree / 1 disagree / 2 outside the model *)
+  Definition c12_check (defs : list tree) (mk : (nat -> cell) -> list runspec) (observed : list obs) : nat :=
+    let '(dh, roots) := load defs [] in
+    let ms := snd (model_obs dh roots (mk (fun n => nth n roots (CInt 0)))) in
+    if existsb (fun m => is_unsup (o_status (fst m))) ms then 2%nat
+    else if list_eqb (fun m o => obs_matches m o) ms observed then 0%nat else 1%nat.
+
+  Definition c12_show (defs : list tree) (mk : (nat -> cell) -> list runspec) :=
+    let '(dh, roots) := load defs [] in
+    snd (model_obs dh roots (mk (fun n => nth n roots (CInt 0)))).
+
+  Fixpoint threads_obs (dh : heap) (roots : list cell) (ths : list thread) (scheds : list (list nat))
+    : list (heap * (result * list tree) * (result * list tree)) :=
+    match scheds with
+    | [] => []
+    | s :: rest =>
+      let ps := fun t => init_ctx (fst (nth t ths ([], []))) empty_priv in
+      let '(dh2, ps2) := sched_run stp dh ps (build_sched (fun t => snd (nth t ths ([], []))) s) in
+      let defs := map (resolve FUEL dh2 []) roots in
+      (dh2, (result_of dh2 (ps2 0%nat), defs), (result_of dh2 (ps2 1%nat), defs)) :: threads_obs dh2 roots ths rest
+    end.
+
+  Definition c12_threads_show (defs : list tree) (mk : (nat -> cell) -> list thread) (scheds : list (list nat)) :=
+    let '(dh, roots) := load defs [] in
+    let ths := mk (fun n => nth n roots (CInt 0)) in
+    let specs := map (fun th : thread => mkrun (fst th) (List.concat (snd th))) ths in
+    let '(dh1, ms) := model_obs dh roots specs in
+    (ms, map (fun x => (snd (fst x), snd x)) (threads_obs dh1 roots ths scheds)).
+
+  Definition c12_threads_check (defs : list tree) (mk : (nat -> cell) -> list thread) (scheds : list (list nat))
+    (solo : list obs) (thr : list (obs * obs)) : nat :=
+    let '(dh, roots) := load defs [] in
+    let ths := mk (fun n => nth n roots (CInt 0)) in
+    let specs := map (fun th : thread => mkrun (fst th) (List.concat (snd th))) ths in
+    let '(dh1, ms) := model_obs dh roots specs in
+    let ts := threads_obs dh1 roots ths scheds in
+    if existsb (fun m => is_unsup (o_status (fst m))) ms
+       || existsb (fun x => negb (closed (fst (fst x))) || is_unsup (o_status (fst (snd (fst x))))
+                            || is_unsup (o_status (fst (snd x)))) ts
+    then 2%nat
+    else if list_eqb (fun m o => obs_matches m o) ms solo
+            && list_eqb (fun x (o : obs * obs) => obs_matches (snd (fst x)) (fst o) && obs_matches (snd x) (snd o)) ts thr
+    then 0%nat else 1%nat.
+End Corr.
